@@ -312,6 +312,8 @@ MonStep(m, e) ==
     [] e.ev = "hang" -> Add(m, {V(m, e, "C05", "the directive did not return: " \o e.note)})
     [] e.ev = "leak" -> Add(m, {V(m, e, IF SubSeq(e.note, 1, 3) = "not" THEN "INCONCLUSIVE" ELSE "C06",
                                     "scheduler goroutines survive the directive: " \o e.note)})
+    [] e.ev = "capacity" -> Add(m, IF e.k >= e.idx THEN {}
+                                   ELSE {V(m, e, "C03", "independent user functions did not run concurrently up to the limit although nothing else was running")})
     [] e.ev = "notprompt" -> Add(m, {V(m, e, "C09", "the directive did not return after its context was done while a user function was still running")})
     [] e.ev = "slow" -> Add(m, {V(m, e, "INCONCLUSIVE", e.note)})
     [] OTHER -> m
